@@ -9,7 +9,8 @@ tier="${1:-quick}"
 export VERIF_DIR="$VERIF" VERIF_REPO="$REPO" CARGO_NET_OFFLINE=true
 SEED="${VERIF_SEED:-20260923}"
 t0=$(date +%s.%N)
-mkdir -p "$VERIF/bin" "$VERIF/evidence" "$VERIF/scratch"
+OUT="${VERIF_OUT:-$VERIF}"
+mkdir -p "$VERIF/bin" "$OUT/evidence" "$OUT/replays" "$VERIF/scratch"
 # name|levels|heights|winternitz
 BUILDS_QUICK=(
  "L1|1|5|8"
@@ -44,6 +45,6 @@ for b in "${BUILDS[@]}"; do
   grep "^KNOWN-FINDING" "$pieces/$name.out" >/dev/null
   [ $r -gt $rc ] && rc=$r
 done
-python3 "$VERIF/scripts/c14_merge.py" "$tier" "$SEED" "$t0" "$pieces" "$VERIF" || rc=2
+python3 "$VERIF/scripts/c14_merge.py" "$tier" "$SEED" "$t0" "$pieces" "$OUT" || rc=2
 rm -rf "$pieces"
 exit $rc
